@@ -509,8 +509,22 @@ class Gen:
             else:
                 n, t = r.choice(muts)
                 if self.site("R16"):
-                    c = self.variant(3)
+                    c = self.variant(5)
                     imm = [m for m, (_, mu) in self.visible().items() if not mu]
+                    if c >= 3:
+                        # an IMMUTABLE let that shadows a visible `let mut` of the same name (c == 3:
+                        # preferably one declared in an enclosing block, so that the shadowing let sits
+                        # in a nested block), then an assignment: the nearest declaration decides,
+                        # whatever the type of the assigned expression
+                        outer = [(m, mt) for m, mt in muts if m not in self.scopes[-1]]
+                        n, t = r.choice(outer) if (outer and c == 3) else (n, t)
+                        t2 = t if r.random() < 0.5 else self.other_prim(t)
+                        s1 = ["let", self.ident(n), 0, ["noty"], self.expr(t2, 1)]
+                        self.scopes[-1][n] = (t2, False)
+                        s2 = ["bind", self.ident(n), self.expr(t if c == 3 else t2, 1)]
+                        self.injected = {"rule": "R16", "kind": "ValueIsNotMutable", "name": n,
+                                         "shadow": "nested" if (outer and c == 3) else "any"}
+                        return ("multi", [s1, s2])
                     if c == 0 or (c == 1 and not imm):
                         self.injected = {"rule": "R16", "kind": "ValueNotFound", "name": "undeclared"}
                         return ["bind", self.ident("undeclared"), self.expr(t, 1)]
@@ -786,11 +800,24 @@ def gen_fault(seed, rule=None, variant=None):
                     if g.injected is not None and (g.injected.get("block"), g.injected.get("after")) == want21:
                         k = kk
                         break
+            if ru == "R16" and variant is not None and variant % 5 == 3:
+                # the shadowing let in a nested block, the `let mut` in an enclosing one
+                for kk in range(n):
+                    g = Gen(sd)
+                    g.inject = (ru, kk)
+                    g.force_variant = variant
+                    g.program()
+                    if g.injected is not None and g.injected.get("shadow") == "nested":
+                        k = kk
+                        break
             g = Gen(sd)
             g.inject = (ru, k)
             g.force_variant = variant
             p = g.program()
             if g.variant_missed and variant is not None and attempt < 11:
+                continue
+            if (ru == "R16" and variant is not None and variant % 5 == 3 and attempt < 11
+                    and g.injected is not None and g.injected.get("shadow") != "nested"):
                 continue
             if ru == "R21" and variant is not None and attempt < 11 and g.injected is not None:
                 # code after return / break / continue, in each kind of body in turn
